@@ -927,3 +927,93 @@ func asciiConstString(v ssa.Value, depth int) bool {
 	}
 	return false
 }
+
+// ruleLoadErrRange (C08-LOADERR): a diagnostic that takes its range from an include.LoadError is published for
+// the open document, so the range must be one of that document: load errors of kind "parse error" carry a
+// position inside the *included* file and must not reach such a diagnostic - its construction is reached only
+// when the kind is known not to be the parse-error kind.
+func ruleLoadErrRange(c *Ctx) {
+	ipk := c.P.SSAPkg("internal/include")
+	var parseKind int64 = -1
+	if k, ok := ipk.Pkg.Scope().Lookup("ErrorParseError").(*types.Const); ok {
+		parseKind, _ = constant.Int64Val(constant.ToInt(k.Val()))
+	}
+	isLoadErrField := func(v ssa.Value, name string) bool {
+		switch x := v.(type) {
+		case *ssa.FieldAddr:
+			return typeHasSuffix(x.X.Type(), "include.LoadError") && fieldVarOfAddr(x).Name() == name
+		case *ssa.Field:
+			if st, ok := x.X.Type().Underlying().(*types.Struct); ok && typeHasSuffix(x.X.Type(), "include.LoadError") {
+				return st.Field(x.Field).Name() == name
+			}
+		}
+		return false
+	}
+	n := 0
+	seen := map[*ssa.BasicBlock]bool{}
+	for _, f := range c.P.ModuleFuncs() {
+		for _, b := range f.Blocks {
+			for _, ins := range b.Instrs {
+				st, ok := ins.(*ssa.Store)
+				if !ok || seen[b] {
+					continue
+				}
+				// a store below <diagnostic>.Range
+				under := false
+				for a := st.Addr; ; {
+					fa, ok := a.(*ssa.FieldAddr)
+					if !ok {
+						break
+					}
+					if typeHasSuffix(fa.X.Type(), "protocol.Diagnostic") && fieldVarOfAddr(fa).Name() == "Range" {
+						under = true
+					}
+					a = fa.X
+				}
+				if !under {
+					continue
+				}
+				fromLoadErr := false
+				for v := range backSlice(st.Val) {
+					if isLoadErrField(v, "Range") {
+						fromLoadErr = true
+					}
+				}
+				if !fromLoadErr {
+					continue
+				}
+				seen[b] = true
+				n++
+				excluded := false
+				for _, cc := range controlCondsPol(b) {
+					bo, ok := cc.Cond.(*ssa.BinOp)
+					if !ok || (bo.Op != token.EQL && bo.Op != token.NEQ) {
+						continue
+					}
+					k, isK := bo.Y.(*ssa.Const)
+					x := bo.X
+					if !isK {
+						k, isK = bo.X.(*ssa.Const)
+						x = bo.Y
+					}
+					if !isK || k.Value == nil || k.Value.Kind() != constant.Int || k.Int64() != parseKind {
+						continue
+					}
+					kindRead := false
+					for v := range backSlice(x) {
+						if isLoadErrField(v, "Kind") {
+							kindRead = true
+						}
+					}
+					if kindRead && ((bo.Op == token.NEQ && cc.Taken) || (bo.Op == token.EQL && !cc.Taken)) {
+						excluded = true
+					}
+				}
+				c.check(excluded, "C08-LOADERR", funcName(f), "diagnostic ranges taken from load errors exclude parse errors", st.Pos(),
+					"the diagnostic is built only for load errors whose range is the include directive's (kind is not the parse-error kind)",
+					"a diagnostic for the open document takes its range from a load error whose kind may be 'parse error': that range is a position inside the included file, so the diagnostic lands on unrelated text or outside the document")
+			}
+		}
+	}
+	c.census("C08-LOADERR", "diagnostics that take their range from a load error", n, 1)
+}
